@@ -333,6 +333,10 @@ func runCheck(o checkOpts) int {
 			switch ob.Status {
 			case "sat":
 			case "unsat":
+				if ob.Diag {
+					fmt.Printf("PATH-CANARY refuted (diagnostic): %s at %s\n", ob.Name, ob.Pos)
+					break
+				}
 				fails = append(fails, failure{o: ob, reason: "vacuity canary refuted: the assumptions at this point (preconditions / loop invariant) are contradictory or the point is unreachable"})
 			default:
 				nCanaryInconclusive++
